@@ -247,3 +247,356 @@ Proof.
   intros W S J v V. rewrite (samp_curve t e e' S).
   destruct (samp_fv t e e' s v W S V) as [V'|V']; [apply J; exact V'|exact V'].
 Qed.
+
+Lemma fv_some' (e : envR) : forall t0 s v, fv t0 e s = Some v ->
+  exists A r R', e = A ++ r :: R' /\ t0 + pdur R A = s /\ v = pv r.
+Proof.
+  induction e as [|a e IH]; intros t0 s v H; simpl in H; [discriminate|].
+  destruct (Z.eqb_spec t0 s) as [E|E].
+  - inversion H; subst. exists [], a, e. simpl. repeat split. lia.
+  - destruct (IH _ _ _ H) as (A & r & R' & E1 & E2 & E3). subst e.
+    exists (a :: A), r, R'. simpl. repeat split; [lia|exact E3].
+Qed.
+
+Lemma fv_ge (e : envR) t0 s v : pwf e -> fv t0 e s = Some v -> t0 <= s.
+Proof.
+  intros W H. apply fv_some' in H. destruct H as (A & r & R' & E & Ed & _). subst e.
+  apply pwf_app in W. destruct W as [WA _]. pose proof (pdur_nonneg _ WA). lia.
+Qed.
+
+(* sampling keeps the first point at every existing control-point time *)
+Lemma samp_fv_keep t e e' s v : pwf e -> samp t e e' -> fv 0 e s = Some v -> fv 0 e' s = Some v.
+Proof.
+  intros W S. destruct S as [e I|front p q back d1 d2 H1 H2 Hd Ht|front p d1 c1 tail H1 Ht Hn Hf]; [auto| |].
+  - apply pwf_app in W. destruct W as [Wf W]. apply pwf_cons in W. destruct W as [Wp Wb].
+    rewrite !fv_app. destruct (fv 0 front s) as [v'|]; [auto|].
+    cbn [fv pd pv]. destruct (Z.eqb_spec (0 + pdur R front) s) as [E|E]; [auto|].
+    intros V. pose proof (fv_ge _ _ _ _ Wb V).
+    destruct (Z.eqb_spec (0 + pdur R front + d1) s) as [E1|E1]; [lia|].
+    replace (0 + pdur R front + d1 + d2) with (0 + pdur R front + pd p) by lia. exact V.
+  - rewrite !fv_app. destruct (fv 0 front s) as [v'|]; [auto|].
+    cbn [fv pd pv]. destruct (Z.eqb_spec (0 + pdur R front) s) as [E|E]; [auto|discriminate].
+Qed.
+
+Lemma fv_index (e : envR) : forall t0 s k p, index_of s (pstarts_from R t0 e) = Some k ->
+  nth_error e k = Some p -> fv t0 e s = Some (pv p).
+Proof.
+  induction e as [|a e IH]; intros t0 s k p H Hn; simpl in H; [discriminate|]. simpl.
+  destruct (Z.eqb_spec s t0) as [E|E]; destruct (Z.eqb_spec t0 s) as [E'|E']; try lia.
+  - inversion H; subst k. simpl in Hn. inversion Hn; subst. reflexivity.
+  - destruct (index_of s (pstarts_from R (t0 + pd a) e)) as [k'|] eqn:Ek; [|discriminate].
+    simpl in H. inversion H; subst k. simpl in Hn. apply (IH _ _ _ _ Ek Hn).
+Qed.
+
+Lemma nojump_notin (e : envR) s : ~ In s (pstarts R e) -> nojump e s.
+Proof. intros H v V. unfold pstarts in H. rewrite fv_notin in V by exact H. discriminate. Qed.
+
+Lemma nojump_0 (e : envR) : nojump e 0.
+Proof.
+  intros v V. destruct e as [|p r]; [discriminate|]. simpl in V. inversion V; subst.
+  rewrite tofR_0. rewrite curve_nonpos; [reflexivity|lra].
+Qed.
+
+(* ================================================================ 4. cut_out *)
+
+Lemma at_bisect {F} (front : env F) p back t : gwf (front ++ p :: back) ->
+  pdur F front <= t < pdur F front + pd p ->
+  bisect_right (pstarts F (front ++ p :: back)) t = S (length front).
+Proof.
+  intros W B. apply gwf_app in W. destruct W as [Wf W]. apply gwf_cons in W. destruct W as [Wp Wb].
+  unfold pstarts. rewrite pstarts_from_app. cbn [pstarts_from].
+  rewrite bisect_right_app by (apply starts_le; [exact Wf|lia]).
+  rewrite pstarts_from_length. cbn [bisect_right].
+  destruct (Z.leb_spec (0 + pdur F front) t); [|lia].
+  rewrite bisect_right_none; [lia|]. apply starts_gt; [exact Wb|lia].
+Qed.
+
+Definition lastp_of (e2 : envR) (en : Z) : res ptR :=
+  match pindex_at R e2 en with
+  | Some i => match nth_error e2 i with Some p => Ok p | None => Err EIndexError end
+  | None => match rev e2 with l :: _ => Ok l | [] => Err EIndexError end
+  end.
+
+Lemma lastp_spec (AB C : envR) en lastp : pwf (AB ++ C) -> 0 <= en -> pdur R AB = en ->
+  (C = [] \/ exists c C', C = c :: C' /\ 0 < pd c) ->
+  lastp_of (AB ++ C) en = Ok lastp ->
+  (exists C', C = lastp :: C' /\ 0 < pd lastp) \/ (C = [] /\ exists init, AB = init ++ [lastp]).
+Proof.
+  intros W H0 Hd HC H. unfold lastp_of in H.
+  destruct HC as [HC|(c & C' & HC & Pc)]; subst C.
+  - right. split; [reflexivity|]. rewrite app_nil_r in *.
+    unfold pindex_at, index_at_from in H. destruct (Z.ltb_spec en (pdur R AB)); [lia|]. cbn [andb] in H.
+    destruct AB as [|a AB'] using rev_ind; [discriminate|]. rewrite rev_unit in H. inversion H; subst.
+    exists AB'. reflexivity.
+  - left. pose proof W as W'. apply pwf_app in W'. destruct W' as [W1 W2].
+    apply pwf_cons in W2. destruct W2 as [Wc W2]. pose proof (pdur_nonneg _ W2).
+    unfold pindex_at, index_at_from in H. rewrite pdur_app in H. cbn [pdur] in H.
+    destruct (Z.ltb_spec en (pdur R AB + (pd c + pdur R C'))); [|lia].
+    destruct (Z.leb_spec 0 en); [|lia]. cbn [andb] in H.
+    rewrite (at_bisect AB c C' en W) in H by lia. cbn [Nat.pred] in H.
+    rewrite nth_error_app_length in H. inversion H; subst. exists C'. auto.
+Qed.
+
+Lemma cut_shape (e2 : envR) s en : pwf e2 -> 0 <= s -> s <= en ->
+  In s (pstarts R e2) -> In en (pstarts R e2) ->
+  exists A B C, e2 = A ++ B ++ C /\ pdur R A = s /\ Forall (fun z => z < s) (pstarts_from R 0 A) /\
+    pdur R B = en - s /\ B ++ C <> [] /\ (C = [] \/ exists c C', C = c :: C' /\ 0 < pd c).
+Proof.
+  intros W H0 H1 Is Ien.
+  destruct (split_at_start s e2 0 W Is) as (A & R0 & E & Rn & Ed & Es). subst e2.
+  rewrite Z.add_0_l in Ed.
+  apply pwf_app in W. destruct W as [WA WR].
+  unfold pstarts in Ien. rewrite pstarts_from_app in Ien. apply in_app_or in Ien.
+  destruct Ien as [Ien|Ien].
+  { exfalso. rewrite Forall_forall in Es. apply Es in Ien. lia. }
+  destruct (split_at_end en R0 _ WR Ien) as (B & C & E1 & E2 & E3). subst R0.
+  exists A, B, C. repeat split; try assumption. lia.
+Qed.
+
+Lemma cut_out_core (e2 : envR) s en lastp : pwf e2 -> 0 <= s -> s <= en ->
+  In s (pstarts R e2) -> In en (pstarts R e2) -> lastp_of e2 en = Ok lastp ->
+  let e' := p_cut_out R s en 0 e2 ++ [mkPt 0 (pv lastp) (pc lastp)] in
+  (forall x, (0 < x <= tofR (en - s))%R -> curve e' x = curve e2 (tofR s + x)%R) /\
+  (nojump e2 s -> curve e' 0%R = curve e2 (tofR s)).
+Proof.
+  intros W H0 H1 Is Ien HL.
+  destruct (cut_shape e2 s en W H0 H1 Is Ien) as (A & B & C & E & EA & SA & EB & NBC & HC). subst e2.
+  pose proof W as W'. apply pwf_app in W'. destruct W' as [WA W']. apply pwf_app in W'. destruct W' as [WB WC].
+  assert (Ecut : p_cut_out R s en 0 (A ++ B ++ C) = B).
+  { rewrite !p_cut_out_app. rewrite p_cut_out_before; [|exact WA|lia|exact SA].
+    rewrite p_cut_out_mid; [|exact WB|lia|lia]. cbn [app].
+    destruct HC as [HC|(c & C' & HC & Pc)]; subst C; [simpl; apply app_nil_r|].
+    rewrite p_cut_out_after; [apply app_nil_r|exact WC|lia|lia|exact Pc]. }
+  cbv zeta. rewrite Ecut. set (L := mkPt 0 (pv lastp) (pc lastp)).
+  rewrite app_assoc in HL, W.
+  assert (HAB : pdur R (A ++ B) = en) by (rewrite pdur_app; lia).
+  destruct (lastp_spec (A ++ B) C en lastp W ltac:(lia) HAB HC HL) as [(C' & EC & Pc)|(EC & init & Ei)].
+  - (* a point that lasts starts at en *)
+    subst C. split.
+    + intros x [Hx1 Hx2].
+      assert (PB : 0 < pdur R B).
+      { apply tofR_lt_inv. rewrite tofR_0. rewrite EB. lra. }
+      assert (NB : B <> []) by (intros ->; simpl in PB; lia).
+      rewrite curve_pos by exact Hx1.
+      rewrite curve_pos by (pose proof (tofR_nonneg s H0); lra).
+      rewrite <- EA.
+      destruct B as [|b B]; [congruence|]. cbn [app].
+      change (A ++ b :: B ++ lastp :: C') with (A ++ b :: (B ++ lastp :: C')).
+      rewrite cg_skip_shift; [|exact WA|lra].
+      change (curve_go 0 b (B ++ lastp :: C') x) with (cg 0 ((b :: B) ++ lastp :: C') x).
+      change (b :: B ++ [L]) with ((b :: B) ++ [L]).
+      destruct (Rlt_dec x (tofR (pdur R (b :: B)))) as [Lx|Lx].
+      * apply cg_prefix; [discriminate|reflexivity|lra].
+      * assert (Ex : x = (0 + tofR (pdur R (b :: B)))%R) by (rewrite EB in *; lra).
+        rewrite !cg_skip; [|exact WB|lra|exact WB|lra]. rewrite Ex.
+        rewrite (curve_go_at_start _ lastp C') by (left; exact Pc). reflexivity.
+    + intros J. assert (V : fv 0 (A ++ B ++ lastp :: C') s = Some (pv (hd lastp B))).
+      { destruct B as [|b B]; cbn [app hd]; apply fv_first; try assumption; apply notin_lt; exact SA. }
+      apply J in V. rewrite <- V.
+      destruct B as [|b B]; cbn [app hd]; [change (pv lastp) with (pv L)|]; apply curve_nonpos; lra.
+  - (* en is the end of the envelope *)
+    subst C. rewrite app_nil_r in *. split.
+    + intros x [Hx1 Hx2].
+      assert (PB : 0 < pdur R B).
+      { apply tofR_lt_inv. rewrite tofR_0. rewrite EB. lra. }
+      destruct B as [|l B'] using rev_ind; [simpl in PB; lia|]. clear IHB'.
+      rewrite app_assoc in Ei. apply app_inj_tail in Ei. destruct Ei as [_ El]. subst l.
+      rewrite curve_pos by exact Hx1.
+      rewrite curve_pos by (pose proof (tofR_nonneg s H0); lra).
+      rewrite <- EA.
+      destruct (B' ++ [lastp]) as [|b B] eqn:EB'; [destruct B'; discriminate|].
+      rewrite cg_skip_shift; [|exact WA|lra].
+      change (curve_go 0 b B x) with (cg 0 (b :: B) x). rewrite <- EB'.
+      rewrite <- app_assoc. cbn [app].
+      apply cg_congr; [reflexivity|]. intros x'.
+      rewrite curve_go_const; [reflexivity|]. constructor; [reflexivity|constructor].
+    + intros J. destruct B as [|b B]; [congruence|].
+      assert (V : fv 0 (A ++ b :: B) s = Some (pv b)).
+      { apply fv_first; [apply notin_lt; exact SA|exact EA]. }
+      apply J in V. rewrite <- V. cbn [app]. apply curve_nonpos; lra.
+Qed.
+
+(* STAGE 3a: the piece cut out reproduces the original from the piece's start on *)
+Theorem cut_out_curve (e : envR) s en e' : pwf e -> 0 <= s -> s <= en ->
+  env_cut_out R RNum e s en = Ok e' ->
+  (forall x, (0 < x <= tofR (en - s))%R -> curve e' x = curve e (tofR s + x)%R) /\
+  (nojump e s -> curve e' 0%R = curve e (tofR s)).
+Proof.
+  intros W H0 H1 H. unfold env_cut_out in H.
+  destruct (sample_at R RNum e s (en - s)) as [e1|] eqn:E1; [|discriminate]. cbn [bind] in H.
+  destruct (sample_at R RNum e1 en 0) as [e2|] eqn:E2; [|discriminate]. cbn [bind] in H.
+  fold (lastp_of e2 en) in H.
+  destruct (lastp_of e2 en) as [lastp|] eqn:EL; [|discriminate]. cbn [bind] in H.
+  unfold check_time, check_start_end in H.
+  destruct (Z.ltb_spec s 0); [discriminate|]. destruct (Z.ltb_spec en s); [discriminate|].
+  cbn [bind] in H. inversion H; subst e'. clear H.
+  pose proof (sample_samp e s (en - s) e1 W ltac:(lia) E1) as S1.
+  pose proof (samp_pwf _ _ _ W S1) as W1.
+  pose proof (sample_samp e1 en 0 e2 W1 ltac:(lia) E2) as S2.
+  pose proof (samp_pwf _ _ _ W1 S2) as W2.
+  assert (EC : forall x, curve e2 x = curve e x).
+  { intros x. rewrite (samp_curve _ _ _ S2), (samp_curve _ _ _ S1). reflexivity. }
+  assert (Is : In s (pstarts R e2)) by (apply (samp_starts_mono _ _ _ _ S2), (samp_in _ _ _ S1)).
+  assert (Ien : In en (pstarts R e2)) by apply (samp_in _ _ _ S2).
+  destruct (cut_out_core e2 s en lastp W2 H0 H1 Is Ien EL) as [P1 P2]. split.
+  - intros x Hx. rewrite P1 by exact Hx. apply EC.
+  - intros J. rewrite P2; [apply EC|]. apply (samp_nojump _ _ _ _ W1 S2), (samp_nojump _ _ _ _ W S1), J.
+Qed.
+
+(* ================================================================ 5. cut_off *)
+
+Lemma cut_off_shape (e2 : envR) s en : pwf e2 -> 0 <= s -> s < en ->
+  In s (pstarts R e2) -> In en (pstarts R e2) ->
+  exists A B1 C1, e2 = A ++ B1 ++ C1 /\ pdur R A = s /\ Forall (fun z => z < s) (pstarts_from R 0 A) /\
+    s + pdur R B1 = en /\ Forall (fun z => z < en) (pstarts_from R s B1) /\ B1 <> [] /\ C1 <> [].
+Proof.
+  intros W H0 H1 Is Ien.
+  destruct (split_at_start s e2 0 W Is) as (A & R0 & E & Rn & Ed & Es). subst e2.
+  rewrite Z.add_0_l in Ed.
+  apply pwf_app in W. destruct W as [WA WR].
+  unfold pstarts in Ien. rewrite pstarts_from_app in Ien. apply in_app_or in Ien.
+  destruct Ien as [Ien|Ien].
+  { exfalso. rewrite Forall_forall in Es. apply Es in Ien. lia. }
+  rewrite Z.add_0_l, Ed in Ien.
+  destruct (split_at_start en R0 s WR Ien) as (B1 & C1 & E1 & E2 & E3 & E4). subst R0.
+  exists A, B1, C1. repeat split; try assumption.
+  intros ->. simpl in E3. lia.
+Qed.
+
+Lemma cut_off_core (e2 : envR) s en v0 e' : pwf e2 -> 0 <= s -> s < en ->
+  In s (pstarts R e2) -> In en (pstarts R e2) -> fv 0 e2 s = Some v0 ->
+  p_squash R (p_cut_off R s en 0 e2) s (mkPt 0 v0 0%R) = Ok e' ->
+  (forall x, (x < tofR s)%R -> curve e' x = curve e2 x) /\
+  (forall x, (tofR s < x)%R -> curve e' x = curve e2 (x + tofR (en - s))%R).
+Proof.
+  intros W H0 H1 Is Ien Hv H.
+  destruct (cut_off_shape e2 s en W H0 H1 Is Ien) as (A & B1 & C1 & E & EA & SA & EB & SB & NB & NC).
+  subst e2.
+  pose proof W as W'. apply pwf_app in W'. destruct W' as [WA W']. apply pwf_app in W'. destruct W' as [WB WC].
+  assert (Ecut : p_cut_off R s en 0 (A ++ B1 ++ C1) = A ++ C1).
+  { rewrite !p_cut_off_app. rewrite p_cut_off_before; [|exact WA|lia|lia|exact SA].
+    rewrite Z.add_0_l, EA.
+    rewrite p_cut_off_mid; [|exact WB|lia|lia|exact SB].
+    rewrite p_cut_off_after; [reflexivity|exact WC|lia|lia]. }
+  rewrite Ecut in H. set (N := mkPt 0 v0 0%R) in *.
+  rewrite <- EA in H. rewrite squash_at_point in H;
+    [|apply gwf_app; split; assumption|exact NC|reflexivity|rewrite EA; exact SA].
+  inversion H; subst e'. clear H.
+  pose proof (tofR_nonneg s H0) as S0.
+  destruct B1 as [|b B1]; [congruence|]. destruct C1 as [|c1 C1]; [congruence|].
+  assert (V : v0 = pv b).
+  { assert (V : fv 0 (A ++ (b :: B1) ++ c1 :: C1) s = Some (pv b)).
+    { cbn [app]. apply fv_first; [apply notin_lt; exact SA|exact EA]. }
+    congruence. }
+  split.
+  - intros x Hx.
+    destruct (Rle_dec x 0) as [Lx|Lx].
+    + destruct A as [|a A].
+      * cbn [app]. rewrite !curve_nonpos by exact Lx. cbn [pv N]. exact V.
+      * cbn [app]. rewrite !curve_nonpos by exact Lx. reflexivity.
+    + rewrite !curve_pos by lra. cbn [app].
+      apply cg_prefix; [|cbn [pv N]; exact V|rewrite EA; lra].
+      intros ->. simpl in EA. rewrite <- EA, tofR_0 in Hx. lra.
+  - intros x Hx.
+    rewrite !curve_pos by (pose proof (tofR_pos (en - s) ltac:(lia)); lra).
+    rewrite cg_skip; [|exact WA|rewrite EA; lra].
+    rewrite curve_go_ge; [|cbn [pd N]; rewrite tofR_0, EA; lra|discriminate].
+    rewrite app_assoc. rewrite cg_skip; [|apply pwf_app; split; assumption|].
+    2:{ rewrite pdur_app, tofR_plus, EA. replace (pdur R (b :: B1)) with (en - s) by lia. lra. }
+    cbn [cg pd N].
+    rewrite <- (curve_go_shift C1 c1 (0 + tofR (pdur R A) + tofR 0) x (tofR (en - s))).
+    apply curve_go_t0. rewrite pdur_app, tofR_plus, tofR_0.
+    replace (pdur R (b :: B1)) with (en - s) by lia. ring.
+Qed.
+
+(* STAGE 3b: cutting off [s, en) keeps what precedes s and shifts what follows en; the time s itself
+   is a jump of the result (from the value of the first point at s to the value at en) *)
+Theorem cut_off_curve (e : envR) s en e' : pwf e -> 0 <= s < en ->
+  env_cut_off R RNum e s en = Ok e' ->
+  (forall x, (x < tofR s)%R -> curve e' x = curve e x) /\
+  (forall x, (tofR s < x)%R -> curve e' x = curve e (x + tofR (en - s))%R).
+Proof.
+  intros W [H0 H1] H. unfold env_cut_off in H.
+  unfold check_time, check_start_end_strict in H.
+  destruct (Z.ltb_spec s 0); [discriminate|]. destruct (Z.ltb_spec s en); [|discriminate].
+  cbn [bind] in H.
+  destruct (sample_at R RNum e s 0) as [e1|] eqn:E1; [|discriminate]. cbn [bind] in H.
+  pose proof (sample_samp e s 0 e1 W ltac:(lia) E1) as S1.
+  pose proof (samp_pwf _ _ _ W S1) as W1.
+  destruct (index_of s (pstarts R e1)) as [k|] eqn:Ek; [|discriminate].
+  destruct (nth_error e1 k) as [pk|] eqn:Enk; [|discriminate]. cbn [bind] in H.
+  pose proof (fv_index e1 0 s k pk Ek Enk) as V1.
+  destruct (sample_at R RNum e1 en 0) as [e2|] eqn:E2; [|discriminate]. cbn [bind] in H.
+  pose proof (sample_samp e1 en 0 e2 W1 ltac:(lia) E2) as S2.
+  pose proof (samp_pwf _ _ _ W1 S2) as W2.
+  assert (EC : forall x, curve e2 x = curve e x).
+  { intros x. rewrite (samp_curve _ _ _ S2), (samp_curve _ _ _ S1). reflexivity. }
+  assert (Is : In s (pstarts R e2)) by (apply (samp_starts_mono _ _ _ _ S2), (samp_in _ _ _ S1)).
+  assert (Ien : In en (pstarts R e2)) by apply (samp_in _ _ _ S2).
+  pose proof (samp_fv_keep _ _ _ _ _ W1 S2 V1) as V2.
+  destruct (cut_off_core e2 s en _ e' W2 H0 H1 Is Ien V2 H) as [P1 P2]. split.
+  - intros x Hx. rewrite P1 by exact Hx. apply EC.
+  - intros x Hx. rewrite P2 by exact Hx. apply EC.
+Qed.
+
+(* ================================================================ 6. the jump at s is necessary *)
+
+Lemma sample_at_same (e : envR) t ap : 0 <= t -> In t (pstarts R e) -> sample_at R RNum e t ap = Ok e.
+Proof.
+  intros H0 I. assert (Ne : e <> []) by (intros ->; exact I).
+  rewrite sample_at_body by exact Ne. unfold sample_body, check_time.
+  destruct (Z.ltb_spec t 0); [lia|]. cbn [bind]. cbv zeta.
+  apply memZ_In in I. rewrite I. reflexivity.
+Qed.
+
+(* control points 0 -> 1 at time 1 tick, a jump to 2 there, then 2 -> 3 *)
+Definition jump_env : envR := [mkPt 1 0 0; mkPt 0 1 0; mkPt 1 2 0; mkPt 0 3 0]%R.
+
+Lemma jump_env_wf : pwf jump_env.
+Proof. repeat constructor; cbn; lia. Qed.
+
+Lemma jump_env_at_1 : curve jump_env (tofR 1) = 2%R.
+Proof.
+  pose proof (tofR_pos 1 ltac:(lia)) as P.
+  rewrite curve_pos by exact P.
+  change jump_env with ([mkPt 1 0 0; mkPt 0 1 0]%R ++ mkPt 1 2 0 :: [mkPt 0 3 0])%R.
+  rewrite cg_skip; [|repeat constructor; cbn; lia|cbn [pdur pd]; rewrite Z.add_0_r; lra].
+  cbn [pdur pd]. rewrite Z.add_0_r. rewrite (curve_go_t0 (0 + tofR 1) (tofR 1)) by ring.
+  rewrite curve_go_at_start by (left; cbn; lia). reflexivity.
+Qed.
+
+Theorem cut_out_jump_refuted : exists e s en e', pwf e /\ 0 <= s /\ s <= en /\
+  env_cut_out R RNum e s en = Ok e' /\ curve e' 0%R <> curve e (tofR s).
+Proof.
+  exists jump_env, 1, 2, [mkPt 0 1 0; mkPt 1 2 0; mkPt 0 3 0; mkPt 0 3 0]%R.
+  split; [exact jump_env_wf|]. split; [lia|]. split; [lia|]. split.
+  - unfold env_cut_out.
+    rewrite (sample_at_same jump_env 1) by (cbn; lia || tauto). cbn [bind].
+    rewrite (sample_at_same jump_env 2) by (cbn; lia || tauto). cbn [bind].
+    reflexivity.
+  - rewrite jump_env_at_1. rewrite curve_nonpos by lra. cbn [pv]. lra.
+Qed.
+
+(* ================================================================ 7. envelopes without doubled points *)
+
+(* every point but the last lasts: no jumps anywhere *)
+Definition strict (e : envR) : Prop := forall A r R', e = A ++ r :: R' -> R' <> [] -> 0 < pd r.
+
+Lemma nojump_strict (e : envR) s : pwf e -> strict e -> nojump e s.
+Proof.
+  intros W St v V. apply fv_some' in V. destruct V as (A & r & R' & E & Ed & Ev). subst e v.
+  rewrite Z.add_0_l in Ed.
+  pose proof W as W'. apply pwf_app in W'. destruct W' as [WA WR].
+  assert (Hr : 0 < pd r \/ R' = []).
+  { destruct R' as [|q R']; [right; reflexivity|left]. apply (St A r (q :: R')); [reflexivity|discriminate]. }
+  destruct A as [|a A].
+  - simpl in Ed. subst s. rewrite tofR_0. cbn [app]. rewrite curve_nonpos; [reflexivity|lra].
+  - assert (Pa : 0 < pd a).
+    { apply (St [] a (A ++ r :: R')); [reflexivity|destruct A; discriminate]. }
+    apply pwf_cons in WA. destruct WA as [_ WA']. pose proof (pdur_nonneg _ WA').
+    simpl in Ed.
+    rewrite curve_pos by (apply tofR_pos; lia).
+    rewrite cg_skip; [|apply pwf_cons; split; [lia|exact WA']|simpl pdur; rewrite Ed; lra].
+    simpl pdur. rewrite Ed. rewrite (curve_go_t0 (0 + tofR s) (tofR s)) by ring.
+    rewrite curve_go_at_start by exact Hr. reflexivity.
+Qed.
